@@ -44,4 +44,6 @@ CANARIES = [
             origin,""", """            inner,
             peer_id: PeerId([0; 32]),
             origin,""")]),
+    dict(id='c-sendstream-drop-no-reset', unit=U, what='dropping an unfinished send half no longer resets the stream', expect=['SendStream::drop::unfinished_stream_is_reset'],
+         edits=[(CONN, '        let _ = self.0.reset(0u8.into());', '        let _ = &self.0;')]),
 ]
